@@ -1218,6 +1218,32 @@ func (d *Doc) evalCall(e *Call, cx Ctx) Val {
 		}
 		return Val{K: KStr, S: cur}
 	}
+	switch e.Name {
+	case "substring-before", "substring-after":
+		return Val{K: KStr, S: d.substringIndex(e.Name == "substring-after", d.String(arg(0)), d.String(arg(1)))}
+	case "substring":
+		start := d.Number(arg(1))
+		if len(e.Args) == 3 {
+			ln := d.Number(arg(2))
+			return Val{K: KStr, S: d.substring(d.String(arg(0)), start, &ln)}
+		}
+		return Val{K: KStr, S: d.substring(d.String(arg(0)), start, nil)}
+	case "normalize-space":
+		if len(e.Args) == 0 {
+			return Val{K: KStr, S: d.normalizeSpace(d.NodeStr(cx.Node))}
+		}
+		return Val{K: KStr, S: d.normalizeSpace(d.String(arg(0)))}
+	case "lower-case":
+		return Val{K: KStr, S: d.lowerCase(d.String(arg(0)))}
+	case "translate":
+		return Val{K: KStr, S: d.translate(d.String(arg(0)), d.String(arg(1)), d.String(arg(2)))}
+	case "string-join":
+		v := arg(0)
+		if v.K != KNodeSet {
+			unsupported("string-join of non-node-set")
+		}
+		return Val{K: KStr, S: d.stringJoin(v.NS, d.String(arg(1)))}
+	}
 	unsupported("function %s", e.Name)
 	return Val{}
 }
